@@ -14,14 +14,16 @@ def jobs(tier):
         Job("class", M, "h_class", dict(C05_NTYPES=2), shards=61, timeout=t),
         Job("types", M, "h_types", dict(C05_NTYPES_ALL=6), shards=61, timeout=t),
         Job("resolved", M, "h_resolved", {}, shards=31, timeout=t,
-            note="text printed from ASTs resolved by the real AdjustTypeParameters / AdjustSelf visitors"),
+            note="text printed from ASTs resolved by the real AdjustTypeParameters / AdjustSelf visitors"),        Job("typevars", M, "h_typevars", {}, shards=16, timeout=t,
+            note="type variables the emitter must declare itself (none declared at module level; same name in two scopes)"),
     ]
   return [
       Job("func", M, "h_func", dict(C05_MAXP=2, C05_NTYPES=6), shards=509, timeout=t),
       Job("class", M, "h_class", dict(C05_NTYPES=5), shards=251, timeout=t),
       Job("types", M, "h_types", dict(C05_NTYPES_ALL=18), shards=509, timeout=t),
       Job("resolved", M, "h_resolved", {}, shards=31, timeout=t,
-          note="text printed from ASTs resolved by the real AdjustTypeParameters / AdjustSelf visitors"),
+          note="text printed from ASTs resolved by the real AdjustTypeParameters / AdjustSelf visitors"),      Job("typevars", M, "h_typevars", {}, shards=16, timeout=t,
+          note="type variables the emitter must declare itself (none declared at module level; same name in two scopes)"),
   ]
 
 
@@ -47,6 +49,10 @@ def meta(tier):
           "parsed and then RESOLVED by the real visitors the emitter applies (AdjustTypeParameters: class templates; "
           "AdjustSelf plain or forced: self / cls types); the text printed from that resolved AST must be a fixed point of "
           "plain parse-then-print, equal to the text printed before resolving, and verify. "
+          "typevars: ASTs in which signatures use type variables that have no module-level declaration, optionally two "
+          "different variables of one name (class-scoped TypeVars of an inferred AST; derived from a parsed stub by "
+          "dropping declarations and renaming, since stub text cannot express it) go through the real "
+          "AdjustTypeParameters; no name is declared twice and the printed text is a fixed point. "
           "Structural inputs: solver-certified exhaustive walk."),
       "functions_encoded": [
           "pytype/pytd/printer.py: PrintVisitor (all Visit*/Enter*/Leave* reached), import bookkeeping; pytype/pytd/pytd_utils.py: Print, ASTeq",
